@@ -1,7 +1,8 @@
 """C11 — splitting on a marker partitions the track; markers reflect the thresholds
-(tracklib/algo/segmentation.py: segmentation(), split(); tracklib/core/track.py: Track.extract, Track.length;
-tracklib/core/track_collection.py: TrackCollection.segmentation, split_segmentation)."""
-import sys, itertools, math
+(tracklib/algo/segmentation.py: segmentation(), split(); tracklib/core/track.py: Track.extract, Track.length,
+Track.getObsAnalyticalFeature on the built-in names; tracklib/core/utils.py: isnan; tracklib/core/obs_time.py: the comparison
+operators of ObsTime; tracklib/core/track_collection.py: TrackCollection.segmentation, split_segmentation)."""
+import sys, itertools, math, datetime
 from fractions import Fraction
 from engine import Prop, ratstr, fbits
 
@@ -10,6 +11,38 @@ VALS = {"0": 0, "1": 1, "2": 2, "1.0": 1.0, "0.5": 0.5, "nan": float("nan"), "Tr
         "-1": -1, "1.5": 1.5, "0.0": 0.0}
 INF = float("inf")
 VIRTUAL = ("x", "y", "z")          # virtual feature names that can be tested by segmentation()
+BUILTIN = ("t", "idx", "timestamp")  # the other built-in names: toAbsTime() (float), the index (int), the ObsTime object
+_EPOCH = datetime.datetime(1970, 1, 1)
+_OBSTIME = [None]                  # tracklib's ObsTime class (set by P.setup)
+
+
+def tm_fields(ms):
+    """calendar fields of an instant given in integer milliseconds since 1970 (stdlib, not tracklib)"""
+    d = _EPOCH + datetime.timedelta(milliseconds=ms)
+    return (d.year, d.month, d.day, d.hour, d.minute, d.second, d.microsecond // 1000)
+
+
+def istime(tok):
+    """case token of an ObsTime value: '@<milliseconds since 1970>'"""
+    return tok.startswith("@")
+
+
+def tm_float(ms):
+    """what toAbsTime() returns for that instant: whole seconds (an int) + ms / 1000.0"""
+    return (ms // 1000) + (ms % 1000) / 1000.0
+
+
+class Tm:
+    """an instant for the oracle: ordered among instants only"""
+    __slots__ = ("ms",)
+
+    def __init__(self, ms):
+        self.ms = ms
+
+    def __gt__(self, o):
+        if not isinstance(o, Tm):
+            raise TypeError("an instant and a number are not comparable")
+        return self.ms > o.ms
 
 
 def fval(tok):
@@ -24,7 +57,9 @@ def fval(tok):
 
 
 def tokval(tok):
-    """token of a feature cell -> the python value put in the track"""
+    """token of a feature cell / threshold -> the python value given to tracklib"""
+    if istime(tok):
+        return _OBSTIME[0](*tm_fields(int(tok[1:])))
     return VALS[tok] if tok in VALS else fval(tok)
 
 
@@ -32,6 +67,8 @@ def valtok(v):
     """python value read from a track -> exact protocol token (by value: True = 1 = 1.0)"""
     if isinstance(v, bool):
         return "1" if v else "0"
+    if hasattr(v, "year"):          # an ObsTime: its seven fields
+        return "@%d.%d.%d.%d.%d.%d.%d" % (v.year, v.month, v.day, v.hour, v.min, v.sec, v.ms)
     f = float(v)
     if f != f:
         return "nan"
@@ -46,11 +83,22 @@ def exact(tok):
     """token -> None (NaN) | Fraction | +-inf, for the oracle (Fraction/float comparisons are exact in Python)"""
     if tok == "nan":
         return None
+    if istime(tok):
+        return Tm(int(tok[1:]))
     if tok == "inf":
         return INF
     if tok == "-inf":
         return -INF
     return Fraction(tok)
+
+
+def kind(tok):
+    return "time" if istime(tok) else "num"
+
+
+def mtok(tok):
+    """case token -> protocol token (an instant is sent as its seven calendar fields)"""
+    return "@%d.%d.%d.%d.%d.%d.%d" % tm_fields(int(tok[1:])) if istime(tok) else tok
 
 
 def coord(tok):
@@ -181,6 +229,22 @@ class P(Prop):
         (M, "TV.C11.segmentation_history", "what an already existing output feature held before the call has no influence on the result"),
         (M, "TV.C11.segmentation_collection", "TrackCollection.segmentation = segmentation() on every track in turn"),
         (M, "TV.C11.listify_one", "a bare feature name / threshold is the one-element list"),
+        (M, "TV.C11.marker_and_typed", "AND mode with isnan / <= as the operator calls they are, any kind of value: where <= answers 'not exceeds' on the pairs compared, no exception and marker = 1 iff some tested value that isnan does not skip exceeds its threshold"),
+        (M, "TV.C11.marker_or_typed", "OR mode, same generality: marker = 1 iff every tested value that is not skipped exceeds its threshold"),
+        (M, "TV.C11.markers_each_typed", "whole track, operator-call model: one marker per observation, each the marker of its row"),
+        (M, "TV.C11.segmentation_total", "the numeric model is the special case 'nothing but NaN is NaN, <= always answers' of the operator-call model"),
+        (M, "TV.C11.marker_first_raises", "outside the domain: the first tested non-NaN value is always compared; if <= raises there the call raises"),
+        (M, "TV.C11.marker_decided_first", "evaluation order of `comp and ...` / `comp or ...`: once the first tested value has decided the marker the others are not compared, no exception whatever they are"),
+        (M, "TV.C11.val_never_nan", "utils.isnan (v != v) is False for every number and every ObsTime: a tested timestamp is never skipped"),
+        (M, "TV.C11.marker_and_val", "AND mode on numbers and ObsTime objects (each tested feature of the kind of its threshold, kinds may differ between features): marker = 1 iff some tested non-NaN value exceeds its threshold"),
+        (M, "TV.C11.marker_or_val", "OR mode on numbers and ObsTime objects: marker = 1 iff every tested non-NaN value exceeds its threshold"),
+        (M, "TV.C11.val_gt_time", "'exceeds' between two well-formed ObsTime objects (ObsTime.__gt__) is 'strictly later' in milliseconds"),
+        (M, "TV.C11.val_gt_num", "'exceeds' between two numbers is >"),
+        (M, "TV.C11.val_mixed_raises", "outside the domain: a number compared with an ObsTime (either way) is the AttributeError of ObsTime.__gt__ / __lt__"),
+        (M, "TV.C11.builtin_features", "getObsAnalyticalFeature on the built-in names: 'timestamp' reads the ObsTime objects, 'idx' 0,1,2,.., 't' toAbsTime() of every timestamp, whatever the feature table holds"),
+        (M, "TV.C11.segmentation_track_typed", "segmentation_track for the operator-call model: tested features of any kind (built-in 'timestamp' included), typed against their thresholds"),
+        (M, "TV.C11.segmentation_track_val", "the same on numbers and ObsTime objects: every tested feature holding values of the kind of its threshold (e.g. ['speed', 'timestamp'] against [5.0, ObsTime])"),
+        (M, "TV.C11.segmentation_history_typed", "segmentation_history for the operator-call model, exceptions included"),
     ]
     partial = []
     open_statements = [
@@ -189,6 +253,12 @@ class P(Prop):
         "split(track, <index list>) with unsorted / negative / out-of-range indices: modelled (Python indexing, IndexError) and run in the "
         "correspondence, no theorem beyond extract_reversed_empty",
         "a NaN threshold, thresholds_max = None, tuples as feature lists, an empty track (AnalyticalFeatureError) are outside the domain",
+        "a number tested against an ObsTime threshold or the reverse (AttributeError unless the marker is already decided: `False and ...`, "
+        "`True or ...`) is outside the domain: modelled (Val.le?, the evaluation order in foldCmpG), theorems marker_first_raises / "
+        "marker_decided_first for the first tested value only; run on both sides, not compared (the property promises nothing there)",
+        "toAbsTime() (the built-in feature 't') is a parameter of the theorems (C03's object); the driver evaluates `seconds + ms / 1000.0` "
+        "at Float on TV.ObsTime.toAbsSec; values of other classes with their own __le__ / __ne__ (strings, user classes) are covered by "
+        "marker_and_typed / marker_or_typed as hypotheses on the operators, not generated",
     ]
     modelled = ("segmentation.split(track, <feature name>, limit) (begin / extract(begin, i) inclusive / begin moved before the limit test / "
                 "the two limit tests `limit > 0 and length < limit` and `limit == 0 or (limit > 0 and length >= limit)` / tail when "
@@ -197,7 +267,10 @@ class P(Prop):
                 "segmentation.segmentation() as a whole: listify of afs_input / thresholds_max, createAnalyticalFeature(af_output) "
                 "(reserved names, empty track, existing feature kept), virtual features x y z, per-observation AND/OR fold of "
                 "value <= thresholds_max[index], NaN skipped, the `len(thresholds_max) >= index` guard with its IndexError / "
-                "float-max default, marker = not fold written as 1 / 0 into the feature table")
+                "float-max default, marker = not fold written as 1 / 0 into the feature table; the same loops with utils.isnan (v != v) and "
+                "`v <= threshold` as Python operator calls on numbers and ObsTime objects (ObsTime.__ne__ / __le__ / __gt__ of core/obs_time.py, "
+                "the AttributeError of a number against an ObsTime, the evaluation order of `comp and (...)` / `comp or (...)`); "
+                "Track.getObsAnalyticalFeature for the built-in names x y z t timestamp idx")
     rule = ("HISTORY: about half of the segmentation cases run on a track whose output feature already exists (left by a previous "
             "segmentation() with other thresholds/mode, created by the user with 0/1/2/0.5/NaN values, or all 1s), or write the marker into one "
             "of the tested features; other features (incl. names like #mark, #0, marker, out), uid, tid, base vary; the model replays the whole "
@@ -214,6 +287,14 @@ class P(Prop):
             "virtual features (x, y, z) as tested features, more thresholds than features, then split on the produced marker; collections of "
             "1..4 tracks through TrackCollection.segmentation / split_segmentation; malformed stream: fewer thresholds than features "
             "(IndexError / float-max default: run on both sides, no claim by the property, not compared). "
+            "BUILT-IN FEATURES / OBSTIME VALUES: tested features 'timestamp' (ObsTime objects against an ObsTime threshold), 't' (float seconds), "
+            "'idx' (int) and feature columns holding ObsTime objects (with NaN cells), alone or mixed with numeric features and x y z, "
+            "1..3 features, both modes; timestamps 1 ms .. 1 month apart around month / leap-day / year ends, increasing with repetitions or "
+            "in any order; thresholds equal to an observation's instant, 1 ms / 0.5 s / 1 s off, in the middle, before / after all; bare name / "
+            "bare ObsTime threshold, extra thresholds, history, then split on the marker; the oracle compares instants as integer "
+            "milliseconds (stdlib datetime builds the calendar fields); every case runs on the operator-call model and, when no ObsTime is in "
+            "sight, on the numeric model as well (their replies must be identical); malformed stream: a number against an ObsTime threshold or "
+            "the reverse (AttributeError / short-circuit: run on both sides, not compared). "
             "non-trivial = split with at least one marker on a track of >= 2 observations, or segmentation with at least one non-NaN value")
 
     def setup(self):
@@ -224,6 +305,7 @@ class P(Prop):
         from tracklib.core.track import Track
         from tracklib.core.track_collection import TrackCollection
         self.Obs, self.ENU, self.ECEF, self.T, self.Track, self.TC = Obs, ENUCoords, ECEFCoords, ObsTime, Track, TrackCollection
+        _OBSTIME[0] = ObsTime
 
     # ---------------------------------------------------------------- generators
     def nmax(self, tier):
@@ -236,7 +318,9 @@ class P(Prop):
         return ["split(): all 2^n marker vectors for every track size n = 1..%d" % self.nmax(tier),
                 "split(): all 2^n marker vectors for n = 1..%d x one observation without elevation (Z = NaN) at every position" % self.nmax_nan(tier),
                 "segmentation(): 1..3 tested features x AND/OR x every combination of {below, equal, above, NaN} per feature, "
-                "for 4 threshold vectors, as one track and as single-observation tracks"]
+                "for 4 threshold vectors, as one track and as single-observation tracks",
+                "segmentation(): 1..2 tested features, each numeric or ObsTime-valued (ObsTime threshold) x AND/OR x every combination "
+                "of {earlier/below, equal, later/above, NaN} per feature, as feature columns and with the built-in 'timestamp' first"]
 
     THS = [["2", "5", "-3/2"], ["0", "0", "0"], ["-1", "1/4", "1024"], ["7/2", "-7/2", "1/1024"]]
     COORDS = ["0", "1", "-1", "0.5", "2", "-2.25", "3", "4", "0.25", "-0.75"]
@@ -275,7 +359,7 @@ class P(Prop):
         c = {"kind": "splitg", "vals": self.rand_marks(rng, n), "pts": self.rand_pts(rng, n),
              "limit": rng.choice(["default", "default", "0", "0.0"] + ([rng.choice(self.LIMITS)] * 3))}
         if rng.random() < 0.12:
-            c["src"] = rng.choice(list(VIRTUAL) + ["idx"])      # split(track, "z"): a virtual feature as the marker
+            c["src"] = rng.choice(list(VIRTUAL) + ["idx", "t", "timestamp"])      # split(track, "z"): a virtual feature as the marker
         tm = self.rand_times(rng, n)
         if tm:
             c["times"] = tm
@@ -298,6 +382,145 @@ class P(Prop):
         if rng.random() < 0.3:
             c["env"] = self.rand_env(rng)
         return c
+
+    # ---- tested values that are not plain feature cells: the built-in names, ObsTime values
+    @staticmethod
+    def _ms(*f):
+        return int((datetime.datetime(*f) - _EPOCH).total_seconds()) * 1000
+
+    def tm_bases(self):
+        return [0, 5000, self._ms(2000, 2, 28, 23, 59, 57), self._ms(2019, 12, 31, 23, 59, 58), self._ms(2024, 2, 29, 12, 0, 0),
+                self._ms(2038, 1, 19, 3, 14, 5), self._ms(1999, 12, 31, 23, 59, 59), self._ms(2021, 6, 30, 10, 59, 30)]
+
+    def rand_tms(self, rng, n):
+        """instants (integer ms): increasing with repetitions, or in any order; steps from 1 ms to a month, so that the
+        comparison is decided by any of the seven fields of ObsTime"""
+        base = rng.choice(self.tm_bases()) + rng.choice([0, 0, 1, 250, 999])
+        step = rng.choice([1, 250, 500, 1000, 1000, 60000, 3600000, 86400000, 31 * 86400000])
+        if rng.random() < 0.6:
+            out, cur = [], base
+            for _ in range(n):
+                out.append(cur)
+                cur += rng.randrange(0, 3) * step
+            return out
+        return [base + rng.randrange(0, 3 * n + 1) * step for _ in range(n)]
+
+    @staticmethod
+    def pick_instant(rng, tms):
+        """a threshold instant: equal to an observation's, 1 ms / half a second off, in the middle, before or after all"""
+        r = rng.random()
+        m = rng.choice(tms)
+        if r < 0.35:
+            return m
+        if r < 0.6:
+            return max(0, m + rng.choice([-1, 1, -500, 500, -1000, 1000]))
+        if r < 0.8:
+            return (min(tms) + max(tms)) // 2
+        return rng.choice([max(0, min(tms) - 1), max(tms) + 1, 0])
+
+    def rand_segb(self, rng):
+        """segmentation() on the built-in features 't' (float seconds), 'idx' (int), 'timestamp' (the ObsTime objects,
+        against an ObsTime threshold) and on feature columns holding ObsTime values, alone or mixed with numeric features"""
+        n = rng.randrange(1, 11)
+        k = rng.randrange(1, 4)
+        tms = self.rand_tms(rng, n)
+        pool = [Fraction(x, 2) for x in range(-6, 7)]
+        pn = rng.choice([0.0, 0.0, 0.2, 0.5])
+        names, cols, kinds = [], [], []
+        for j in range(k):
+            kd = rng.choice(["timestamp", "timestamp", "t", "idx", "tf", "num", "virt"] if j else ["timestamp", "timestamp", "timestamp", "t", "idx", "tf"])
+            if kd == "virt":
+                free = [v for v in VIRTUAL if v not in names]
+                if not free:
+                    kd = "num"
+            if kd in BUILTIN:
+                names.append(kd)
+                cols.append(self.builtin_col({"tms": tms}, kd, n))
+            elif kd == "tf":          # a feature whose cells are ObsTime objects (some missing: NaN)
+                names.append("f%d" % j)
+                cols.append(["nan" if rng.random() < pn else "@%d" % self.pick_instant(rng, tms) for _ in range(n)])
+            else:
+                names.append(rng.choice(free) if kd == "virt" else "f%d" % j)
+                cols.append(["nan" if rng.random() < pn else ratstr(rng.choice(pool)) for _ in range(n)])
+            kinds.append(kd)
+
+        def th_for(kd):
+            if kd in ("timestamp", "tf"):
+                return "@%d" % self.pick_instant(rng, tms)
+            if kd == "t":
+                # snapped to a multiple of 125 ms: such an instant is a double whatever way toAbsTime() is computed, every
+                # other instant is at least 1 ms away from it, so the oracle does not depend on the last bit of 't'
+                m = self.pick_instant(rng, tms)
+                return ratstr(Fraction(m if m % 125 == 0 else (m // 250) * 250 + 125, 1000))
+            if kd == "idx":
+                return rng.choice([str(i) for i in range(-1, n + 1)] + ["1/2", "5/2"])
+            return ratstr(rng.choice(pool))
+        ths = [th_for(kd) for kd in kinds]
+        r = rng.random()
+        if r < 0.12:
+            ths += [th_for(rng.choice(["timestamp", "num"])) for _ in range(rng.randrange(1, 3))]     # extra thresholds: never read
+        elif r < 0.18:
+            ths = ths[:rng.randrange(0, k)]                                                        # fewer: outside the domain
+        elif r < 0.26 and ths:
+            j = rng.randrange(k)                                                                    # a number against an ObsTime: outside the domain
+            ths[j] = th_for("num") if istime(ths[j]) else th_for("timestamp")
+        c = {"kind": "seg", "mode": rng.choice(["and", "or"]), "ths": ths, "rows": [[cols[j][i] for j in range(k)] for i in range(n)],
+             "names": names, "tms": tms, "split": True}
+        if k == 1:
+            c["afs_form"] = rng.choice(["str", "list"])
+        c["ths_form"] = "scalar" if (len(ths) == 1 and rng.random() < 0.5) else "list"
+        if rng.random() < 0.5:
+            c["pts"] = self.rand_pts(rng, n)
+        if rng.random() < 0.5:
+            c["env"] = self.rand_env(rng)
+        if rng.random() < 0.3 and len(ths) >= k and all(kind(ths[j]) == ("time" if kinds[j] in ("timestamp", "tf") else "num") for j in range(k)):
+            r = rng.random()
+            if r < 0.5:        # left by a previous segmentation() with other thresholds of the same kinds / mode
+                c["pre"] = {"type": "seg", "mode": rng.choice(["and", "or"]), "ths": [th_for(kd) for kd in kinds]}
+            elif r < 0.85:
+                c["pre"] = {"type": "vals", "vals": [rng.choice(["0", "1", "1", "2", "0.5", "nan", "1.0", "True", "-1"]) for _ in range(n)]}
+            else:
+                c["pre"] = {"type": "all1"}
+        return c
+
+    def kind_grid(self, rng):
+        """1..2 tested features, each numeric or ObsTime-valued, every combination of {below, equal, above, NaN} per
+        feature, both modes; the same with the first feature being the built-in 'timestamp' (which has no NaN)"""
+        out = []
+        t0 = self._ms(2020, 2, 29, 23, 59, 59) + 500
+        for k in (1, 2):
+            for kinds in itertools.product(("num", "time"), repeat=k):
+                ths = ["2" if kd == "num" else "@%d" % (t0 + 1000 * j) for j, kd in enumerate(kinds)]
+                for builtin in (False, True):
+                    if builtin and kinds[0] != "time":
+                        continue
+                    rows, tms = [], []
+                    for combo in itertools.product("bea" if builtin else "beaN", *(["beaN"] * (k - 1))):
+                        row = []
+                        for j, ch in enumerate(combo):
+                            if ch == "N":
+                                row.append("nan")
+                            elif kinds[j] == "num":
+                                d = rng.choice([Fraction(1), Fraction(1, 2), Fraction(1, 1024)])
+                                row.append(ratstr(Fraction(ths[j]) + {"b": -d, "e": 0, "a": d}[ch]))
+                            else:
+                                d = rng.choice([1, 500, 1000, 60000, 86400000, 366 * 86400000])
+                                row.append("@%d" % (int(ths[j][1:]) + {"b": -d, "e": 0, "a": d}[ch]))
+                        rows.append(row)
+                        if builtin:
+                            tms.append(int(row[0][1:]))
+                    names = [("timestamp" if (builtin and j == 0) else "f%d" % j) for j in range(k)]
+                    for mode in ("and", "or"):
+                        c = {"kind": "seg", "mode": mode, "ths": ths, "rows": rows, "names": names, "split": True}
+                        if builtin:
+                            c["tms"] = tms
+                        out.append(c)
+                        for r, row in enumerate(rows):
+                            c1 = dict(c, rows=[row])
+                            if builtin:
+                                c1["tms"] = [tms[r]]
+                            out.append(c1)
+        return out
 
     def cases(self, rng, tier):
         out = []
@@ -362,6 +585,9 @@ class P(Prop):
                 out.append(self.with_history(rng, c, pool))
             if rng.random() < 0.5:
                 out.append(self.with_forms(rng, c))
+        out += self.kind_grid(rng)
+        for _ in range(1500 if quick else 40000):
+            out.append(self.rand_segb(rng))
         for _ in range(300 if quick else 12000):
             k = rng.randrange(1, 3)
             ths = [ratstr(rng.choice(pool)) for _ in range(k + (1 if rng.random() < 0.2 else 0))]
@@ -458,7 +684,12 @@ class P(Prop):
 
     def in_domain(self, case):
         if case["kind"] == "seg":
-            return len(case["ths"]) >= len(case["rows"][0]) if case["rows"] else True
+            if not case["rows"]:
+                return True
+            if len(case["ths"]) < len(case["rows"][0]):
+                return False
+            # a number against an ObsTime threshold (or the reverse) is not comparable: no claim
+            return all(v == "nan" or kind(v) == kind(case["ths"][j]) for r in self.eff_rows(case) for j, v in enumerate(r))
         if case["kind"] == "coll":
             return len(case["ths"]) >= len(case["tracks"][0][0])
         return True
@@ -478,12 +709,19 @@ class P(Prop):
         if k == "seg":
             t["mode"] = case["mode"]
             t["features"] = len(case["rows"][0])
-            t["domain"] = "in" if self.in_domain(case) else "fewer-thresholds"
+            t["domain"] = "in" if len(case["ths"]) >= len(case["rows"][0]) else "fewer-thresholds"
             t["history"] = (case["pre"]["type"] if case.get("pre") else "out=" + case["outname"][:1] if case.get("outname") else "fresh")
             afs, ths = self.forms(case)
             t["forms"] = afs + "/" + ths
             if any(nm in VIRTUAL for nm in self.names(case)):
                 t["virtual"] = "yes"
+            bi = sorted(set(nm for nm in self.names(case) if nm in BUILTIN))
+            if bi:
+                t["builtin"] = "+".join(bi)
+            kds = set(kind(v) for r in self.eff_rows(case) for v in r if v != "nan")
+            t["values"] = "mixed" if len(kds) == 2 else "ObsTime" if kds == {"time"} else "numbers"
+            if t["domain"] == "in" and not self.in_domain(case):
+                t["domain"] = "number-vs-ObsTime"
             flat = [v for r in case["rows"] for v in r] + list(case["ths"])
             if "inf" in flat or "-inf" in flat:
                 t["infinite"] = "yes"
@@ -509,6 +747,36 @@ class P(Prop):
     @staticmethod
     def names(case):
         return case.get("names") or ["f%d" % j for j in range(len(case["rows"][0]))]
+
+    @staticmethod
+    def times_ms(case, n):
+        """timestamps of the observations in integer milliseconds"""
+        if case.get("tms"):
+            return list(case["tms"])
+        return [1000 * s_ for s_ in (case.get("times") or list(range(n)))]
+
+    def builtin_col(self, case, name, n):
+        """tokens of the column a built-in name ('t', 'idx', 'timestamp') reads, from the case's timestamps"""
+        tms = self.times_ms(case, n)
+        if name == "idx":
+            return [str(i) for i in range(n)]
+        if name == "t":
+            return [ratstr(Fraction(tm_float(m))) for m in tms]
+        return ["@%d" % m for m in tms]
+
+    def eff_rows(self, case):
+        """the tested values per observation: as written in the case, the columns of built-in names being derived
+        from the track's timestamps / indices"""
+        rows = case["rows"]
+        if not rows or not case.get("names") or not any(nm in BUILTIN for nm in case["names"]):
+            return rows
+        rows = [list(r) for r in rows]
+        for j, nm in enumerate(case["names"]):
+            if nm in BUILTIN:
+                col = self.builtin_col(case, nm, len(rows))
+                for i in range(len(rows)):
+                    rows[i][j] = col[i]
+        return rows
 
     @staticmethod
     def forms(case):
@@ -552,7 +820,7 @@ class P(Prop):
         elif k == "seg":
             outname = case.get("outname", "out")
             for j, nm in enumerate(self.names(case)):
-                if nm not in VIRTUAL:
+                if nm not in VIRTUAL and nm not in BUILTIN:
                     put(nm, [r[j] for r in case["rows"]])
             if env.get("extra_after"):
                 extras(outname)
@@ -570,12 +838,14 @@ class P(Prop):
         pts = self.points(case, n)
         times = case.get("times") or list(range(n))
         for i in range(n):
-            t.addObs(self.Obs(self.ENU(coord(pts[i][0]), coord(pts[i][1]), coord(pts[i][2])), self.T.readUnixTime(times[i])))
+            # "tms": instants in integer milliseconds, the ObsTime being built from its calendar fields
+            ts = self.T(*tm_fields(case["tms"][i])) if case.get("tms") else self.T.readUnixTime(times[i])
+            t.addObs(self.Obs(self.ENU(coord(pts[i][0]), coord(pts[i][1]), coord(pts[i][2])), ts))
         for nm, toks in self.table(case, n, offset):
             vals = [int(x) for x in toks] if nm == "tag" else [tokval(x) for x in toks]
             if env.get("numpy") and nm != "tag":      # cells computed with numpy: np.float64 / np.int64 scalars
                 import numpy as np
-                vals = [v if isinstance(v, bool) else (np.int64(v) if isinstance(v, int) else np.float64(v)) for v in vals]
+                vals = [v if isinstance(v, bool) or hasattr(v, "year") else (np.int64(v) if isinstance(v, int) else np.float64(v)) for v in vals]
             t.createAnalyticalFeature(nm, vals)
         return t
 
@@ -636,10 +906,10 @@ class P(Prop):
             t = self.make_track(case, len(rows))
             names = self.names(case)
             outname = case.get("outname", "out")
-            ths = [fval(x) for x in case["ths"]]
+            ths = [tokval(x) if istime(x) else fval(x) for x in case["ths"]]
             pre = case.get("pre")
             if pre and pre["type"] == "seg":
-                self.S.segmentation(t, names, outname, [fval(x) for x in pre["ths"]], self.mode_const(pre["mode"]))
+                self.S.segmentation(t, names, outname, [tokval(x) if istime(x) else fval(x) for x in pre["ths"]], self.mode_const(pre["mode"]))
             afs_form, ths_form = self.forms(case)
             self.S.segmentation(t, names[0] if afs_form == "str" else names, outname,
                                 ths[0] if ths_form == "scalar" else ths, self.mode_const(case["mode"]))
@@ -685,6 +955,10 @@ class P(Prop):
             return [coord(p[VIRTUAL.index(src)]) == 1 for p in case["pts"]]
         if src == "idx":
             return [i == 1 for i in range(len(case["vals"]))]
+        if src == "t":              # toAbsTime() == 1
+            return [m == 1000 for m in self.times_ms(case, len(case["vals"]))]
+        if src == "timestamp":      # an ObsTime is never equal to 1
+            return [False] * len(case["vals"])
         return [VALS[v] == 1 for v in case["vals"]]
 
     @staticmethod
@@ -712,29 +986,55 @@ class P(Prop):
         if k == "coll":
             return ["C11.collseg %s %s %s" % ("and" if case["mode"] == "default" else case["mode"], ",".join(case["ths"]) or "_",
                                               "|".join(";".join(",".join(r) for r in rows) for rows in case["tracks"]))]
-        rows = ";".join(",".join(r) for r in case["rows"])
-        n = len(case["rows"])
-        lines = ["C11.%s %s %s %s" % ("segsplit" if case.get("split") else "marker", case["mode"], ",".join(case["ths"]) or "_", rows)]
+        erows = self.eff_rows(case)
+        rows = ";".join(",".join(mtok(v) for v in r) for r in erows)
+        n = len(erows)
+        cmd = "segsplit" if case.get("split") else "marker"
+        ths = ",".join(mtok(x) for x in case["ths"]) or "_"
         # the whole sequence of calls on the feature table
         names = self.names(case)
         outname = case.get("outname", "out")
         pts = self.points(case, n)
-        virt = ";".join("%s=%s" % (v, ",".join(valtok(coord(p[c])) for p in pts)) for c, v in enumerate(VIRTUAL))
+        xyz = ["%s=%s" % (v, ",".join(valtok(coord(p[c])) for p in pts)) for c, v in enumerate(VIRTUAL)]
+        # the numeric model is handed the columns of 't' and 'idx'; the operator-call model computes them (and
+        # 'timestamp') from the timestamps of the observations
+        virt = xyz + ["%s=%s" % (nm, ",".join(self.builtin_col(case, nm, n))) for nm in ("t", "idx")]
+        stamps = ",".join(mtok(x) for x in self.builtin_col(case, "timestamp", n)) or "_"
         calls = []
         pre = case.get("pre")
         if pre and pre["type"] == "seg":
-            calls += [pre["mode"], "l:" + ",".join(names), outname, "l:" + (",".join(pre["ths"]) or "_")]
+            calls += [pre["mode"], "l:" + ",".join(names), outname, "l:" + (",".join(mtok(x) for x in pre["ths"]) or "_")]
         afs_form, ths_form = self.forms(case)
         calls += [case["mode"], ("s:" + names[0]) if afs_form == "str" else "l:" + ",".join(names), outname,
-                  ("s:" + case["ths"][0]) if ths_form == "scalar" else "l:" + (",".join(case["ths"]) or "_")]
-        lines.append("C11.segseq %d %s %s %s" % (n, virt, self.table_tok(self.table(case, n)), " ".join(calls)))
+                  ("s:" + mtok(case["ths"][0])) if ths_form == "scalar" else "l:" + ths]
+        tab = self.table_tok(self.table(case, n))
+        # the operator-call model (values: numbers or ObsTime objects) ...
+        lines = ["C11.%sv %s %s %s" % (cmd, case["mode"], ths, rows),
+                 "C11.segseqv %s %s %s %s" % (";".join(xyz), stamps, tab, " ".join(calls))]
+        # ... and, when every value in sight is a number, the numeric model as well: the two must answer the same
+        if self.numeric(case):
+            lines += ["C11.%s %s %s %s" % (cmd, case["mode"], ths, rows),
+                      "C11.segseq %d %s %s %s" % (n, ";".join(virt), tab, " ".join(calls))]
         return lines
+
+    def numeric(self, case):
+        """no ObsTime anywhere: neither tested ('timestamp'), nor as a cell of the feature table, nor as a threshold"""
+        if "timestamp" in self.names(case):
+            return False
+        toks = list(case["ths"]) + [v for r in case["rows"] for v in r]
+        pre = case.get("pre") or {}
+        toks += list(pre.get("ths", [])) + list(pre.get("vals", []))
+        return not any(istime(x) for x in toks)
 
     def decode(self, case, replies):
         k = case["kind"]
         for r in replies:
             if r == "bad-request":
                 raise ValueError("bad-request")
+        if k == "seg" and len(replies) == 4:
+            if replies[2:] != replies[:2]:
+                raise ValueError("model: the numeric model answers %s, the operator-call model %s" % (replies[2:], replies[:2]))
+            replies = replies[:2]
         for r in replies:
             if r.startswith("err:"):
                 return {"err": r}
@@ -837,12 +1137,14 @@ class P(Prop):
                     return "track %d of the collection: %s" % (j, e)
             return None
         ths = [exact(x) for x in case["ths"]]
-        rows = [[exact(v) for v in r] for r in case["rows"]]
+        erows = self.eff_rows(case)
+        rows = [[exact(v) for v in r] for r in erows]
         want = oracle_markers(case["mode"], ths, rows)
         if out["markers"] != want:
             bad = [i for i in range(len(want)) if i >= len(out["markers"]) or out["markers"][i] != want[i]][0]
-            return ("marker %s, expected %s: observation %d with tested values %s against thresholds %s in %s mode"
-                    % (out["markers"], want, bad, case["rows"][bad], case["ths"], case["mode"].upper()))
+            return ("marker %s, expected %s: observation %d with tested values %s (features %s) against thresholds %s in %s mode "
+                    "[@n = the instant n milliseconds after 1970-01-01]"
+                    % (out["markers"], want, bad, erows[bad], self.names(case), case["ths"], case["mode"].upper()))
         if case.get("split"):
             return oracle_split([c == "1" for c in want], out["pieces"])
         return None
@@ -906,7 +1208,7 @@ class P(Prop):
             for key in ("env", "times", "pts"):
                 if case.get(key):
                     yield {k_: v for k_, v in case.items() if k_ != key}
-            if case.get("names") and not case.get("outname"):
+            if case.get("names") and not case.get("outname") and not any(nm in BUILTIN for nm in case["names"]):
                 yield {k_: v for k_, v in case.items() if k_ != "names"}
             if case.get("pre") and case["pre"]["type"] != "all1":
                 yield dict(case, pre={"type": "all1"})
@@ -916,7 +1218,7 @@ class P(Prop):
                     if case.get("pre", {}).get("type") == "vals":
                         v = case["pre"]["vals"]
                         c2["pre"] = {"type": "vals", "vals": v[:i] + v[i + 1:]}
-                    for key in ("times", "pts"):
+                    for key in ("times", "pts", "tms"):
                         if case.get(key):
                             c2[key] = case[key][:i] + case[key][i + 1:]
                     yield c2
